@@ -155,7 +155,10 @@ PROPS = {
                 "and beyond the limit (32-bit boundaries by theorem only).",
     },
     "C19": {
-        "theorems": ["FinProto.Reg.mutual_exclusion", "FinProto.Reg.write_needs_lock", "FinProto.Reg.linearizable", "FinProto.Reg.real_time_order", "FinProto.Reg.ret_before_inv_lin", "FinProto.Reg.thread_projection", "FinProto.Reg.reg_winner_unique", "FinProto.Reg.reg_winner_unique_run", "FinProto.Reg.get_after_reg", "FinProto.Reg.reg_fails_when_present", "FinProto.Reg.get_right_name"],
+        "theorems": ["FinProto.Reg.mutual_exclusion", "FinProto.Reg.write_needs_lock", "FinProto.Reg.linearizable", "FinProto.Reg.real_time_order", "FinProto.Reg.ret_before_inv_lin", "FinProto.Reg.thread_projection", "FinProto.Reg.reg_winner_unique", "FinProto.Reg.reg_winner_unique_run", "FinProto.Reg.get_after_reg", "FinProto.Reg.reg_fails_when_present", "FinProto.Reg.get_right_name",
+                     "FinProto.Obl.C19_wellBracketed", "FinProto.Obl.C19_progs_pinned", "FinProto.Obl.C19_mutual_exclusion", "FinProto.Obl.C19_write_needs_lock",
+                     "FinProto.Obl.C19_linearizable", "FinProto.Obl.C19_real_time", "FinProto.Reg.pmutual_exclusion", "FinProto.Reg.plinearizable",
+                     "FinProto.Reg.pinned_atomic", "FinProto.Reg.pinned_linearizable", "FinProto.Reg.preal_time", "FinProto.Reg.badRegShared_not_linearizable"],
         "race": True,
         "aspects": {**OTHER},
         "rule": "sequential histories of 1..14 Registry/Get/Remove/Clear calls over 3 names vs the model's map specification; concurrent "
